@@ -189,7 +189,7 @@ impl Core {
             }
         }
         // bursts of I / P
-        if self.burst_left > 0 {
+        if self.burst_left > 0 && self.stats.pending + self.stats.interrupted < 2 * self.data.len() as u64 + 64 {
             self.burst_left -= 1;
             return if is_async {
                 Dec::P { delay: self.rng.below(4) as u8, twice: self.rng.chance(1, 8) }
@@ -198,7 +198,9 @@ impl Core {
             };
         }
         let pct = if is_async { p.pend_pct } else { p.intr_pct };
-        if pct > 0 && self.rng.chance(pct, 100) {
+        // keep the schedule finite: at most 2 * len + 64 generated I / P decisions per source
+        let spent = self.stats.pending + self.stats.interrupted;
+        if pct > 0 && spent < 2 * self.data.len() as u64 + 64 && self.rng.chance(pct, 100) {
             self.burst_left = self.rng.below(p.max_burst.max(1));
             return if is_async {
                 Dec::P { delay: self.rng.below(4) as u8, twice: self.rng.chance(1, 8) }
